@@ -41,6 +41,13 @@ PROJECTS = {
     'page_names': [('pn', '', True), ('pn.a', 'class b:\n    class c: pass\n', False), ('pn.z', 'class Index: pass\nclass index: pass\n', False)],
     'zope': [('z', 'from zope.interface import Interface, implementer\nclass IFoo(Interface):\n    def m(): pass\n'
                    '@implementer(IFoo)\nclass Foo:\n    def m(self): pass\nclass Sub(Foo): pass\n', False)],
+    # an interface that the package re-exports, used (base class, @implementer) by a module that imports it from where it is defined
+    'zope_reexported': [('zp', 'from zp._impl import IFoo\n__all__ = ["IFoo"]\n', True),
+                        ('zp._impl', 'from zope.interface import Interface\nclass IFoo(Interface):\n    def m(): "doc"\n', False),
+                        ('zp.late', 'from zp._impl import IFoo\nfrom zope.interface import implementer\nclass ISub(IFoo):\n    "sub"\nclass ISubSub(ISub):\n    pass\n@implementer(IFoo, ISub)\nclass Impl:\n    def m(self): pass\n', False)],
+    # variables that the docstring of their module / class documents by fields (@type only, @var, @ivar), assigned or not
+    'docstring_fields': [('df', '"""Module.\n\n@type x: int\n@var y: documented\n@type w: str\n"""\nx = 1\ny = 2\nz = 3\n'
+                                'class K:\n    """\n    @type a: int\n    @ivar b: documented only\n    @cvar c: doc\n    """\n    a = 1\n    c = 2\n    def __init__(self):\n        self.d = 3\n', False)],
     # decorators that only mean something in a class body, used at module level and in a function
     'module_level_decorated': [('md', '@staticmethod\ndef make(): pass\n@classmethod\ndef create(cls): pass\ndef plain(): pass\n@property\ndef prop(): pass\n'
                                       'class K:\n    @staticmethod\n    def s(): pass\n    @classmethod\n    def c(cls): pass\n    def m(self): pass\n', False)],
@@ -134,10 +141,19 @@ def check_model(system):
         if isinstance(o, model.Function) and not isinstance(o.parent, model.Class) and \
                 o.kind in (model.DocumentableKind.METHOD, model.DocumentableKind.CLASS_METHOD, model.DocumentableKind.STATIC_METHOD):
             fails.append({'observed': f'{key} is a {o.kind.name} in a {type(o.parent).__name__}', 'required': 'has a kind that fits its place (methods live in classes)', 'class': 'kind-outside-class'})
+        if isinstance(o, model.Attribute) and o.kind is None and o.value is not None:
+            fails.append({'observed': f'{key} is assigned in the source ({type(o.value).__name__}) but has no kind (which hides it)', 'required': 'has a kind that fits its place',
+                          'class': 'kind-missing'})
         if isinstance(o, model.Module) and o.parent is not None and not isinstance(o.parent, model.Package):
             fails.append({'observed': f'module {key} sits in a {type(o.parent).__name__}', 'required': 'modules sit only in packages', 'class': 'module-place'})
         if isinstance(o, (model.Function, model.Attribute)) and o.contents:
             fails.append({'observed': f'{key} has children {list(o.contents)}', 'required': 'functions and variables have no children', 'class': 'leaf-children'})
+        if isinstance(o, model.Class) and hasattr(o, 'isinterface'):
+            # zope: a class is an interface exactly when one of its resolved bases is (or it derives from zope.interface.Interface itself)
+            via_base = any(b is not None and getattr(b, 'isinterface', False) for b in o.baseobjects)
+            if via_base and not (o.isinterface and o.kind is model.DocumentableKind.INTERFACE):
+                fails.append({'observed': f'{key} derives from an interface but is documented as {o.kind.name} (isinterface={o.isinterface})', 'required': 'has a kind that fits its place',
+                              'class': 'interface-kind'})
         if isinstance(o, model.Class):
             mro = o.mro()
             if not mro or mro[0] is not o:
